@@ -14,7 +14,7 @@ import mpmath
 import sympy as sp
 import z3
 
-from .sym import SigmaF, isbool
+from .sym import SigmaF, isbool, Ite
 
 Z3_TIMEOUT_MS = int(os.environ.get("NSS_Z3_TIMEOUT_MS", "20000"))
 CVC5_TIMEOUT_S = int(os.environ.get("NSS_CVC5_TIMEOUT_S", "60"))
@@ -124,6 +124,7 @@ class Z3Conv:
             self.axioms.append(z3.Implies(za > 1, v > 0))
             self.axioms.append(z3.Implies(z3.And(za > 0, za < 1), v < 0))
             self.axioms.append(z3.Implies(za > 0, v <= za - 1))
+            self.axioms.append(z3.Implies(za > 0, v >= 1 - 1 / za))
             self._mono("log", za, v, lambda t: t > 0)
             # exp(log x) = x
             self.axioms.append(z3.Implies(za > 0, self._exp(v) == za))
@@ -323,6 +324,8 @@ class Z3Conv:
             for z in zs[1:]:
                 r = z3.If(r >= z, r, z) if isinstance(e, sp.Max) else z3.If(r <= z, r, z)
             return r
+        if isinstance(e, Ite):
+            return z3.If(c(e.args[0]), c(num_(e.args[1])), c(num_(e.args[2])))
         if isinstance(e, sp.Piecewise):
             args = list(e.args)
             val, cond = args[-1]
@@ -511,6 +514,8 @@ def neval(e, env: dict):
         if isinstance(e, sp.Symbol):
             return bool(env[e])
         raise ValueError("cannot evaluate boolean %s" % e)
+    if isinstance(e, Ite):
+        return neval(e.args[1], env) if neval(e.args[0], env) else neval(e.args[2], env)
     if isinstance(e, sp.Piecewise):
         for val, cond in e.args:
             if neval(cond, env):
@@ -625,13 +630,14 @@ def algebra_zero(d, budget_s=20, cheap=False) -> bool:
         lambda x: x,
         sp.expand,
         lambda x: sp.cancel(sp.together(x)),
+        lambda x: sp.radsimp(sp.together(sp.expand_trig(x))),
         lambda x: sp.expand(sp.expand_trig(x)),
         lambda x: sp.simplify(x),
         lambda x: sp.simplify(sp.expand_log(sp.powdenest(sp.expand_power_base(x)))),
         lambda x: sp.trigsimp(sp.expand(sp.expand_trig(x))),
     ]
     if cheap:
-        steps = steps[:3]
+        steps = steps[:4]
     for f in steps:
         if time.time() - t0 > budget_s:
             return False
@@ -757,14 +763,28 @@ def prove(hyps, goal, boxes=None, seed=0, use_cvc5=False, sigma=True, timeout_ms
     pure = False
     if isinstance(goal, sp.Eq):
         d = subst_defs(hyps, num_(goal.lhs) - num_(goal.rhs))
-        pure = not d.has(sp.Piecewise, sp.core.function.AppliedUndef, sp.Max, sp.Min, sp.Abs, sp.Mod, sp.floor)
+        pure = not d.has(sp.Piecewise, Ite, sp.core.function.AppliedUndef, sp.Max, sp.Min, sp.Abs, sp.Mod, sp.floor)
         if pure and algebra_zero(d, budget_s=5, cheap=True):
             return Result("proved", "sympy-normal-form", time.time() - t0)
     allx = list(hyps) + [goal]
     extra = []
     refs = []
     if sigma and sigma_terms(allx):
-        extra, _ = sigma_lemmas(hyps, allx, lambda H, G: prove(H, G, sigma=False, timeout_ms=5000), refs)
+        # pointwise instantiation: Sigma(b) == 0 (or <= 0) with b >= 0 everywhere  =>  b == 0 for the generic element
+        for h in hyps:
+            cands = []
+            if isinstance(h, sp.Eq) and h.rhs == 0 and isinstance(h.lhs, sp.core.function.AppliedUndef) and h.lhs.func == SigmaF:
+                cands.append(h.lhs)
+            if isinstance(h, sp.Not) and isinstance(h.args[0], sp.Gt) and h.args[0].rhs == 0 and getattr(h.args[0].lhs, "func", None) == SigmaF:
+                cands.append(h.args[0].lhs)
+            if isinstance(h, sp.Le) and h.rhs == 0 and getattr(h.lhs, "func", None) == SigmaF:
+                cands.append(h.lhs)
+            for t in cands:
+                r0 = prove([x for x in hyps if x is not h], sp.Ge(t.args[1], 0), sigma=False, timeout_ms=3000)
+                if r0.status == "proved":
+                    extra.append(sp.Eq(t.args[1], 0))
+        ex2, _ = sigma_lemmas(hyps, allx, lambda H, G: prove(H, G, sigma=False, timeout_ms=5000), refs)
+        extra = extra + ex2
     r = z3_prove(hyps + extra, goal, timeout_ms)
     if r.status == "proved":
         r.secs = time.time() - t0
